@@ -21,7 +21,7 @@ def numJson : PyVal → Bool
   | .int _ | .float _ | .bool _ => true
   | _ => false
 
-def isNoneF : FieldDecl → Bool
+def isNoneDecl : FieldDecl → Bool
   | .noneF => true
   | _ => false
 
@@ -59,7 +59,7 @@ termination_by structural f _ => f
 def inFragOpt (O : Oracles) : List FieldDecl → PyVal → Bool
   | [], _ => false
   | [_], _ => false
-  | f :: g :: [], v => isNoneF f && !v.isNone && conforms O g v && inFrag O g v
+  | f :: g :: [], v => isNoneDecl f && !v.isNone && conforms O g v && inFrag O g v
   | _ :: _ :: _ :: _, _ => false
 termination_by structural fs _ => fs
 
